@@ -212,6 +212,10 @@ where
         // a valid index into `self.location.identifier`, since an identifier has `R::LEN` bits.
         unsafe { self.location.identifier.get_unchecked(component_index) } {
             // The component exists and needs to be removed.
+            let removed_component_offset =
+                // SAFETY: `self.location.identifier` is generic over the same `Registry` on which
+                // this function is called.
+                unsafe { Registry::offset_in_row(self.location.identifier.iter()) };
             let (entity_identifier, current_component_bytes) =
                 // SAFETY: An archetype with this identifier is guaranteed to exist, since there is an
                 // allocated location for it in the entity allocator.
@@ -272,6 +276,24 @@ where
                     .modify_location_unchecked(entity_identifier, location);
             }
             self.location = location;
+
+            // The removed component is no longer owned by any archetype. It is dropped last, after
+            // the entity is completely stored in its new archetype, so that a panicking `Drop`
+            // implementation leaves the world in a consistent state.
+            drop(
+                // SAFETY: `current_component_bytes` holds a valid, owned value of type
+                // `Component` at `removed_component_offset`, since the components are packed in
+                // the order of the registry and the component was identified by the entity's
+                // previous archetype identifier. The value was skipped when the other components
+                // were moved into the new archetype and is not read again.
+                unsafe {
+                    current_component_bytes
+                        .as_ptr()
+                        .add(removed_component_offset)
+                        .cast::<Component>()
+                        .read_unaligned()
+                },
+            );
         }
     }
 
